@@ -129,3 +129,10 @@ Example C18_example :
   map (fun x => o_batches (snd x)) (Witness.tr cfg_fixed Witness.h_good Witness.u_good) =
   [[]; []; [(8, [Witness.A0; Witness.A1])]; []; [(9, [Witness.A2; Witness.B3])]; []; []; []].
 Proof. exact good_history_example. Qed.
+
+(** a reachable state with a non-empty batched run and a non-empty next batch (hypotheses of
+    [C18_consecutive_across], [C18_batch]) *)
+Example C18_state_example :
+  reachable Witness.P1 Witness.accts Witness.u_good s_mid /\
+  snd (generate Witness.P1 s_mid) = Some (9, [Witness.A2; Witness.B3]) /\ batched s_mid = [(0, 1); (0, 0)].
+Proof. exact (conj s_mid_reachable (conj (proj1 s_mid_example) (proj1 (proj2 (proj2 s_mid_example))))). Qed.
